@@ -91,6 +91,44 @@ Proof.
   - reflexivity.
 Qed.
 
+(* ---- CSV mode: $i after `getline var` ---- *)
+
+Definition csv_fields_full_statement : Prop :=
+  forall ops, (forall o, In o ops -> match o with ORecord n | OGetlineVar n => 0 <= n | OField i => 1 <= i | ONF => True end) ->
+  f_run fs_init ops <> None.
+
+(* BEGIN { n = NF; getline x; print $1 } on CSV input "a,b,c": finding F-C02-8 *)
+Theorem csv_getline_var_refuted : ~ csv_fields_full_statement.
+Proof.
+  intros H. apply (H [ONF; OGetlineVar 3; OField 1]); [|reflexivity].
+  intros o [<-|[<-|[<-|[]]]]; lia.
+Qed.
+
+Definition no_getline_var (ops : list fop) : Prop := forall o, In o ops -> match o with OGetlineVar _ => False | _ => True end.
+
+Lemma f_run_inv : forall ops s, no_getline_var ops ->
+  (fs_have s = true -> fs_true s = fs_fields s) -> f_run s ops <> None.
+Proof.
+  induction ops as [|o ops IH]; intros s Hn Hinv; cbn [f_run]; [discriminate|].
+  assert (Hn' : no_getline_var ops) by (intros o' Ho'; apply Hn; right; exact Ho').
+  pose proof (Hn o (or_introl eq_refl)) as Ho.
+  assert (He : fs_have (f_ensure s) = true /\ fs_true (f_ensure s) = fs_fields (f_ensure s)).
+  { unfold f_ensure. destruct (fs_have s) eqn:E; cbn [fs_have fs_true fs_fields]; [split; [exact E|auto]|split; reflexivity]. }
+  destruct o as [n|n| |i]; cbn [f_step].
+  - apply IH; [exact Hn'|]. cbn [fs_have]. discriminate.
+  - destruct Ho.
+  - apply IH; [exact Hn'|]. intros _. apply He.
+  - destruct He as [He1 He2].
+    destruct (fs_fields (f_ensure s) <? i) eqn:E1.
+    + apply IH; [exact Hn'|]. intros _. exact He2.
+    + destruct (i <=? fs_true (f_ensure s)) eqn:E2; [|lia].
+      apply IH; [exact Hn'|]. intros _. exact He2.
+Qed.
+
+(* without `getline var` the two slices stay the same length whenever the fields are current *)
+Theorem csv_fields_partial : forall ops, no_getline_var ops -> f_run fs_init ops <> None.
+Proof. intros ops Hn. apply f_run_inv; [exact Hn|]. cbn. discriminate. Qed.
+
 (* ---- the hypothesis on the primitives is satisfiable: any primitive record, with CallBuiltin
         forced to the table's arities, conforms ---- *)
 
